@@ -20,7 +20,7 @@ LANGS = {
     'Lf': {'f': ('F', 'ss'), 'g': ('G', 'ss'), 'h': ('H', 'sss'), 'w': ('W', 'ssss')},
     'Lm': {'mvar': ('MVar', 's'), 'madd': ('MAdd', 'cc'), 'mmul': ('MMul', 'cc'), 'msum': ('MSum', 'bc'), 'mlet': ('MLet', 'bcc')},
     'La': {'avar': ('AVar', 's'), 'aadd': ('AAdd', 'cc'), 'amul': ('AMul', 'cc'), 'alam': ('ALam', 'bc'), 'num': ('ANum', 'p')},
-    'Lb': {'var': ('Var', 's'), 'app': ('App', 'cc'), 'lam': ('Lam', 'bc'), 'k': ('K', 'ss'), 'u': ('U', 'c'), 'j': ('J', 'ss'), 't3': ('T3', 'sss'), 's3': ('S3', 'sss'), 'm3': ('M3', 'sss'), 'at': ('At', 'sc'), 'ta': ('Ta', 'cs'), 'w4': ('W4', 'ssss'), 'v4': ('V4', 'ssss')},
+    'Lb': {'var': ('Var', 's'), 'app': ('App', 'cc'), 'lam': ('Lam', 'bc'), 'k': ('K', 'ss'), 'u': ('U', 'c'), 'j': ('J', 'ss'), 't3': ('T3', 'sss'), 's3': ('S3', 'sss'), 'm3': ('M3', 'sss'), 'at': ('At', 'sc'), 'ta': ('Ta', 'cs'), 'w4': ('W4', 'ssss'), 'v4': ('V4', 'ssss'), 'lt': ('Lt', 'cbc')},
 }
 
 class Template:
